@@ -14,12 +14,12 @@ use std::rc::Rc;
 pub const INFO: PropInfo = PropInfo {
     quick_runs: 40_000,
     thorough_runs: 1_500_000,
-    rule: "each run = one generated request sequence (1..6 well-formed requests) delivered on a baseline connection (one segment per request, after the previous response) and on 1..3 further connections under tape-chosen deliveries \
+    rule: "each run = one generated request sequence (1..6 well-formed requests, sometimes followed by one malformed request) delivered on a baseline connection (one segment per request, after the previous response) and on 1..3 further connections under tape-chosen deliveries \
            (cuts anywhere in head/body, coalescing of consecutive requests, pipelining, delays 0..seconds, short reads); non-trivial = at least one non-baseline delivery produced a complete response; \
            distinct = distinct hash of (requests, deliveries)",
     state_measure: "(delivery family, cut-position classes, short reads) combinations reached",
-    assumptions: &["request heads stay below 1 KiB (longer heads are outside the supported subset, see C02)", "requests are well-formed (class W of C02); the last one may carry Connection: close"],
-    expected_probes: &["c06.cut_in_request_line", "c06.cut_in_header", "c06.cut_at_blank_line", "c06.cut_in_body", "c06.two_requests_one_segment", "c06.short_read_fired", "c06.body_over_buffer_split"],
+    assumptions: &["request heads stay below 1 KiB (longer heads are outside the supported subset, see C02)", "requests are well-formed (class W of C02); the last one may carry Connection: close, or be a complete malformed head (which has no defined extent, so nothing may follow it): it must be refused exactly once under every delivery"],
+    expected_probes: &["c06.cut_in_request_line", "c06.cut_in_header", "c06.cut_at_blank_line", "c06.cut_in_body", "c06.two_requests_one_segment", "c06.short_read_fired", "c06.body_over_buffer_split", "c06.malformed_last_request"],
 };
 
 #[derive(Clone, Debug, Serialize, Deserialize)]
@@ -44,7 +44,7 @@ fn layout(reqs: &[ReqItem]) -> Vec<(usize, usize, usize)> {
     let mut at = 0;
     for r in reqs {
         let b = r.bytes();
-        let hl = r.spec.head_bytes().len();
+        let hl = if r.malformed.is_some() { b.len() } else { r.spec.head_bytes().len() };
         v.push((at, at + hl, at + b.len()));
         at += b.len();
     }
@@ -129,6 +129,15 @@ pub fn generate(cfg: &RunCfg, out: &mut Outcome) -> Scenario {
     let mut reqs = reqs;
     if let Some(pos) = reqs.iter().position(|r| r.wants_close()) {
         reqs.truncate(pos + 1);
+    }
+    // a malformed request has no defined extent, so only the LAST one of a stream may be malformed: everything before it
+    // must be served and it must be refused exactly once, however the bytes are cut
+    if !reqs.iter().any(|r| r.wants_close()) && t::chance(1, 5) {
+        let mut last = sess::gen_sequence(9, &SeqOpts { min: 1, max: 1, allow_malformed: false, allow_close: false, max_body: 0, allow_delay: false }).remove(0);
+        last.malformed = sess::malform(&last.spec);
+        if last.malformed.is_some() {
+            reqs.push(last);
+        }
     }
     let n = 1 + t::weighted(&[5, 3, 2]);
     let deliveries = (0..n).map(|_| gen_delivery(&reqs, cfg, out)).collect();
@@ -323,6 +332,13 @@ fn execute(sc: &Scenario, out: &mut Outcome) {
     for (k, it) in sc.reqs.iter().enumerate() {
         let shown = format!("{:?}", String::from_utf8_lossy(&it.bytes()).chars().take(160).collect::<String>());
         match b.resps.get(k) {
+            Some(Ok(r)) if it.malformed.is_some() => {
+                out.probe("c06.malformed_last_request");
+                if r.status < 400 || r.header("X-Dump").is_some() {
+                    out.violate("baseline-matches-reference", format!("malformed-status-{}", r.status), format!("baseline request {k} is malformed but was answered with {}; request={shown}", describe(&b.resps[k])));
+                    return;
+                }
+            }
             Some(Ok(r)) => {
                 if r.status != 200 || r.header("X-Dump").is_none() {
                     out.violate("baseline-matches-reference", format!("status-{}", r.status), format!("baseline request {k}: {}; request={shown}", describe(&b.resps[k])));
